@@ -1,9 +1,12 @@
 (* Proofs/GenAgreeStream.v — the tables tools/go2v regenerated from schema/select.go and
    schema/stream.go (Gen/StreamSelTable.v) are the ones Model/Stream.v assumes
    (Model/StreamSelTable.v).  A changed constant, a receiveN entry with a missing / doubled /
-   crossed case, or a changed comparison makes one of these stop compiling. *)
+   crossed case, or a comparison with maxSelectNum under which reflect.Select can run on cases
+   that were not built / receiveN can be asked for an arity it has no entry for makes one of these
+   stop compiling. *)
 From Eino Require Import Base.Util Model.Stream Model.StreamSelTable.
 From Eino Require Gen.StreamSelTable.
+From Coq Require Import Lia ZifyBool ZifyNat.
 
 Theorem gen_max_select_num_agrees : Gen.StreamSelTable.max_select_num = maxSelectNum.
 Proof. reflexivity. Qed.
@@ -11,9 +14,56 @@ Proof. reflexivity. Qed.
 Theorem gen_receive_table_agrees : Gen.StreamSelTable.receive_table = Model.StreamSelTable.receive_table.
 Proof. reflexivity. Qed.
 
+(* The two decisions that depend on maxSelectNum (build the reflect cases or not; reflect.Select or
+   receiveN), regenerated as functions of n = len(sts) and k = len(chosenList) from whichever
+   function of schema/stream.go takes them: what Model/Stream.v needs of them
+   ([select_mechanisms_ok], Model/StreamSelTable.v) holds for every n and k a merged reader can be
+   in.  `>=` instead of `>` in recv alone (seeded merge-arity5-hang) fails at n = k = 5:
+   reflect.Select on cases that were never built. *)
 Theorem gen_select_threshold_agrees :
-  Gen.StreamSelTable.select_threshold_ops = Model.StreamSelTable.select_threshold_ops.
-Proof. reflexivity. Qed.
+  select_mechanisms_ok Gen.StreamSelTable.receive_table
+    Gen.StreamSelTable.builds_reflect_cases Gen.StreamSelTable.recv_uses_reflect.
+Proof.
+  unfold select_mechanisms_ok. intros n k Hk.
+  rewrite gen_receive_table_agrees.
+  assert (HL : List.length Model.StreamSelTable.receive_table = 5) by reflexivity.
+  rewrite HL; clear HL.
+  (* also on the neutral file, whose definitions unfold to the model's *)
+  cbv beta delta [Gen.StreamSelTable.builds_reflect_cases Gen.StreamSelTable.recv_uses_reflect
+                  Gen.StreamSelTable.max_select_num
+                  Model.StreamSelTable.builds_reflect_cases Model.StreamSelTable.recv_uses_reflect
+                  Model.StreamSelTable.max_select_num maxSelectNum].
+  lia.
+Qed.
+
+(* the model's own reading of the two decisions satisfies the same statement (non-vacuity of
+   [select_mechanisms_ok]: it is satisfiable, and by the decisions as the code takes them today) *)
+Example model_select_mechanisms_ok :
+  select_mechanisms_ok Model.StreamSelTable.receive_table
+    Model.StreamSelTable.builds_reflect_cases Model.StreamSelTable.recv_uses_reflect.
+Proof.
+  unfold select_mechanisms_ok. intros n k Hk.
+  unfold Model.StreamSelTable.receive_table, Model.StreamSelTable.builds_reflect_cases,
+    Model.StreamSelTable.recv_uses_reflect, Model.StreamSelTable.max_select_num.
+  rewrite map_length, seq_length. unfold maxSelectNum. lia.
+Qed.
+
+(* and it is not trivially true: a reader that chooses reflect.Select one source earlier than the
+   cases are built for is refused *)
+Example select_mechanisms_refuse_early_reflect :
+  ~ select_mechanisms_ok Model.StreamSelTable.receive_table
+      Model.StreamSelTable.builds_reflect_cases (fun n k => Nat.leb maxSelectNum k).
+Proof.
+  intros H. destruct (H 5 5 ltac:(lia)) as [H1 _]. specialize (H1 eq_refl). discriminate H1.
+Qed.
+
+(* nor is a table that is one entry short for the arities left to receiveN *)
+Example select_mechanisms_refuse_short_table :
+  ~ select_mechanisms_ok (removelast Model.StreamSelTable.receive_table)
+      Model.StreamSelTable.builds_reflect_cases Model.StreamSelTable.recv_uses_reflect.
+Proof.
+  intros H. destruct (H 5 5 ltac:(lia)) as [_ H2]. specialize (H2 eq_refl). vm_compute in H2. lia.
+Qed.
 
 Lemma nth_error_seq_lt : forall n a i, i < n -> nth_error (seq a n) i = Some (a + i).
 Proof.
